@@ -15,7 +15,7 @@ pub static DEF: PropDef = PropDef {
     id: "C10",
     level: "exploration",
     rule: "each case: a random conformant tree with known- and unknown-size masters interleaved (and random Full collapsing) is turned into a call history (with write_raw() calls of unknown ids inserted at random positions in a third of the cases), truncated at a random point (so masters may be left open) and optionally ended with flush(); the destination is a recording sink and is inspected after every call. The monitor keeps its own shadow stack of open masters from the call history. Checks: (1) at every element/Full/End call that returned Ok while the shadow stack holds no known-size master, the destination content must be walked completely and exactly by the reference header decoder guided by the partial tree of tags accepted so far (open unknown-size masters included); (2) while a known-size master is open the destination length does not change; (3) after flush()/into_inner() the destination decodes to the whole tree with every master closed and nothing left over; (4) destination content only ever grows. distinct = (tree fingerprint, sequence of shadow-stack shapes (K/U strings) at observation points) plus each shape sequence by itself; non-trivial iff some observation point had depth >= 2 or the history was cut with masters open.",
-    assumptions: &["a quarter of the ordinary histories continue after a flush() in the middle (which closes all open masters) with a second document under the same specification; the flush is an observation point like any other", "a fifth of the ordinary histories additionally contain one or two calls that the writer rejects (generated as in C19); rejected calls are not part of the tags written so far; all observations continue after them and judge the destination against the accepted calls only", "every eighth case is an unclosable-master history: a known-size master is given size width 1 and a Void child of 127-199 marker bytes, the history is cut before its End; flush(), flush(), End, flush(), into_inner() follow: the destination stays append-only, a failing call delivers none of the marker bytes, and any flush()/into_inner() that reports Ok must leave a destination that decodes to everything accepted", "the sink implements only io::Write, so bytes handed over cannot be retracted physically; the check is on completeness and timing", "unknown-size masters are never presented as Full (the writer ignores children there; outside C10's statement)"],
+    assumptions: &["one ordinary history in eight runs against a destination whose own flush() fails once (its write() calls took every byte): the writer call during which that happens returns a WriteError and may count as written or not (both readings are accepted at every later observation), a failing flush() is simply repeated; in no reading may a byte reach the destination twice", "a quarter of the ordinary histories continue after a flush() in the middle (which closes all open masters) with a second document under the same specification; the flush is an observation point like any other", "a fifth of the ordinary histories additionally contain one or two calls that the writer rejects (generated as in C19); rejected calls are not part of the tags written so far; all observations continue after them and judge the destination against the accepted calls only", "every eighth case is an unclosable-master history: a known-size master is given size width 1 and a Void child of 127-199 marker bytes, the history is cut before its End; flush(), flush(), End, flush(), into_inner() follow: the destination stays append-only, a failing call delivers none of the marker bytes, and any flush()/into_inner() that reports Ok must leave a destination that decodes to everything accepted", "the sink implements only io::Write, so bytes handed over cannot be retracted physically; the check is on completeness and timing", "unknown-size masters are never presented as Full (the writer ignores children there; outside C10's statement)"],
     cases_quick: 200_000,
     cases_thorough: 2_000_000,
     floors: &[("complete_prefix_checks", 5000), ("held_back_checks", 3000), ("distinct_nontrivial", 200), ("final_decodes", 2000)],
@@ -86,6 +86,26 @@ fn explicit_width_open_at(calls: &[WCall], pos: usize) -> bool {
         }
     }
     stack.iter().any(|w| *w)
+}
+
+/// The destination must decode to the accepted calls — or, when one call ended in a WriteError caused by the injected
+/// destination-flush fault, to the accepted calls without that one (both readings of "accepted" are allowed).
+fn decode_either(dest: &[u8], accepted: &[WCall], alt: &Option<Vec<WCall>>) -> Result<usize, String> {
+    match layout_guided(dest, &partial_tree(accepted)) {
+        Ok(l) => Ok(l.len()),
+        Err(e) => {
+            if let Some(alt) = alt {
+                let mut a2 = alt.clone();
+                if accepted.len() > alt.len() {
+                    a2.extend(accepted[alt.len() + 1..].iter().cloned());
+                }
+                if let Ok(l) = layout_guided(dest, &partial_tree(&a2)) {
+                    return Ok(l.len());
+                }
+            }
+            Err(e)
+        }
+    }
 }
 
 /// A master started with an explicit size width that its content outgrows can never be closed. flush() / into_inner()
@@ -297,7 +317,18 @@ fn run(c: &mut Case) {
     }
     let mut accepted: Vec<WCall> = Vec::new();
     let explicit_flush = c.rng.chance(1, 2);
-    let mut w = TagWriter::new(ScriptedWrite::new().with_limits(if c.rng.chance(1, 4) { vec![7, 1, 3] } else { vec![] }));
+    let mut sink = ScriptedWrite::new().with_limits(if c.rng.chance(1, 4) { vec![7, 1, 3] } else { vec![] });
+    // one history in eight: the destination's own flush() fails once (its write() calls took every byte). The writer
+    // call during which that happens returns a WriteError; whether its tag counts as written is left open (both
+    // readings are accepted, see below) — but no byte may ever reach the destination twice.
+    let flaky_flush = !with_rejections && c.rng.chance(1, 8);
+    if flaky_flush {
+        sink.fail_flush_at = Some(c.rng.usize_below(calls.len().max(1)));
+        c.count("histories_with_a_failing_destination_flush");
+    }
+    let mut w = TagWriter::new(sink);
+    // when a call ended in a WriteError because of the injected flush fault: the accepted list without that call
+    let mut alt_accepted: Option<Vec<WCall>> = None;
     // shadow stack: true = known-size
     let mut shadow: Vec<bool> = Vec::new();
     let mut shapes = String::new();
@@ -320,6 +351,11 @@ fn run(c: &mut Case) {
             WRes::Caught(cg) => {
                 c.violation(format!("C10/writer-{}", cg.sig()), format!("call {} {}", i, cg.text()), wit(&calls, i, &dest, "panic"));
                 return;
+            }
+            WRes::Err(crate::wr::WErr::Io { .. }) if flaky_flush && alt_accepted.is_none() => {
+                // the injected destination fault: go on as if the call had been accepted, remember the other reading
+                c.count("calls_ended_by_the_injected_flush_fault");
+                alt_accepted = Some(accepted.clone());
             }
             WRes::Err(_) => {
                 if !with_rejections {
@@ -371,8 +407,8 @@ fn run(c: &mut Case) {
         if observation && !known_open_after {
             // (1) everything accepted so far must be there, and nothing else
             c.count("complete_prefix_checks");
-            let pt = partial_tree(&accepted);
-            if let Err(e) = layout_guided(&dest, &pt) {
+            let res = decode_either(&dest, &accepted, &alt_accepted);
+            if let Err(e) = res {
                 let shape: String = shadow.iter().map(|k| if *k { 'K' } else { 'U' }).collect();
                 c.violation(
                     format!("C10/incomplete-when-no-known-open/stack-{}/{}", if shape.is_empty() { "empty".to_string() } else { shape.chars().take(4).collect() }, match call { WCall::Write(Item::End(_), _) => "after-end", WCall::Write(Item::Full(..), _) => "after-full", _ => "after-element" }),
@@ -396,6 +432,14 @@ fn run(c: &mut Case) {
     if explicit_flush {
         let r = do_call(&mut w, &WCall::Flush);
         c.eval();
+        let mut r = r;
+        if flaky_flush && alt_accepted.is_none() && matches!(r, WRes::Err(crate::wr::WErr::Io { .. })) {
+            // the injected destination fault hit this flush(): the caller simply tries again
+            c.count("calls_ended_by_the_injected_flush_fault");
+            alt_accepted = Some(accepted.clone());
+            accepted.push(WCall::Flush);
+            r = do_call(&mut w, &WCall::Flush);
+        }
         if !r.is_ok() && with_rejections {
             // an accepted call next to a rejected one may have left a master that cannot be closed: nothing to decide
             c.count("vacuous_flush_failed_after_rejections");
@@ -406,8 +450,7 @@ fn run(c: &mut Case) {
             return;
         }
         let dest = w.get_ref().data.clone();
-        let full = partial_tree(&accepted);
-        if let Err(e) = layout_guided(&dest, &full) {
+        if let Err(e) = decode_either(&dest, &accepted, &alt_accepted) {
             c.violation(format!("C10/flush-incomplete/open{}", open_at_end.min(4)), format!("after flush() the destination does not decode to the whole tree: {}", e), wit(&calls, calls.len() - 1, &dest, &e));
             return;
         }
@@ -415,15 +458,16 @@ fn run(c: &mut Case) {
     match finish(w) {
         Err(cg) => c.violation(format!("C10/into_inner-{}", cg.sig()), cg.text(), J::Null),
         Ok(Err(_)) if with_rejections => c.count("vacuous_into_inner_failed_after_rejections"),
+        Ok(Err(crate::wr::WErr::Io { .. })) if flaky_flush && alt_accepted.is_none() => c.count("vacuous_into_inner_hit_the_injected_flush_fault"),
         Ok(Err(e)) => c.violation(format!("C10/into_inner-failed/{}", e.kind()), format!("into_inner failed: {:?}", e), doc_json(&doc).set("calls", calls_json(&calls, 80))),
         Ok(Ok(sink)) => {
             c.count("final_decodes");
             let full = partial_tree(&accepted);
-            match layout_guided(&sink.data, &full) {
+            match decode_either(&sink.data, &accepted, &alt_accepted) {
                 Err(e) => c.violation(format!("C10/final-incomplete/open{}", open_at_end.min(4)), format!("after into_inner() the destination does not decode to the whole tree: {}", e), wit(&calls, calls.len() - 1, &sink.data, &e)),
                 Ok(lay) => {
-                    c.add("elements_in_final_output", lay.len() as u64);
-                    if !cut && !with_rejections && !reused && !calls.iter().any(|x| matches!(x, WCall::WriteRaw(..))) && flat(&full) != flat(&doc.tree) {
+                    c.add("elements_in_final_output", lay as u64);
+                    if !cut && !with_rejections && !reused && !flaky_flush && !calls.iter().any(|x| matches!(x, WCall::WriteRaw(..))) && flat(&full) != flat(&doc.tree) {
                         // harness self-check: the partial-tree builder must reproduce the generated tree
                         panic!("partial_tree mismatch");
                     }
